@@ -4,9 +4,11 @@
   non-vacuity examples; helper lemmas are in `FwdVerif/Lemmas/C12.lean`).
 
   A. the classification table of `errorResponse`, stated outright for every `ErrKind`
-  B. the error response: `X-Forwarder-Error`, self-delimiting
+  B. the error response: `X-Forwarder-Error`, self-delimiting; the relayed CONNECT rejection: the
+     upstream proxy's reply under the client's protocol version, honouring the client's `close`
   C. one fault at any point of an exchange: a complete error response, or a prefix that no parser
-     accepts as complete (F12, F13 are the two classes for which the full statement is false)
+     accepts as complete (F13, F37 are the classes for which the full statement is false; F12 is
+     repaired: a transport-level CONNECT rejection is relayed well-formed)
   D. several exchanges on one connection: only this exchange's bytes, nothing after a torn response
   E. `handleLoop`: five consecutive non-closeable errors close the connection — and which errors count
 
@@ -19,8 +21,8 @@ namespace FwdVerif
 namespace C12
 
 open Ascii
-open C16 (HMap goDel goSet goAdd Rule applyRules NoRename ValidRule)
-open Req (bs natToDec)
+open C16 (HMap goDel goSet goAdd Rule applyRules NoRename ValidRule CanonKeys NodupKeys)
+open Req (bs natToDec hopByHopNames)
 
 /-! ## A. classification -/
 
@@ -114,7 +116,7 @@ theorem c12_handler_order_matters :
   decide
 
 /-- full clause "TLS failures are 502" over every way the handshake with the origin can fail —
-    FALSE of the unchanged code (F26): failures that `crypto/tls` / `net/http` report as plain errors
+    FALSE of the unchanged code (F33): failures that `crypto/tls` / `net/http` report as plain errors
     (a record that is no ServerHello, a close, the handshake time-out) match no handler -/
 def c12_tls_failures_502_full : Prop := ∀ t : TLSFault, (classify t.errKind).1 = 502
 
@@ -152,7 +154,7 @@ theorem c12_rejected_connect_relays_status (s : Nat) :
 example : respStatus (.connectRejected 407) = 407 := by decide
 
 /-- full clause "a connect time-out is a 504" including the CONNECT to an upstream proxy that is not
-    answered within `ConnectTimeout` — FALSE of the unchanged code (F27): `dialvia` returns the bare
+    answered within `ConnectTimeout` — FALSE of the unchanged code (F34): `dialvia` returns the bare
     `context.DeadlineExceeded`, which no handler knows -/
 def c12_connect_timeout_504_full : Prop :=
   (classify (.opError .dial true)).1 = 504 ∧ (classify .ctxDeadline).1 = 504
@@ -260,23 +262,88 @@ theorem c12_error_response_self_delimiting (closing : Bool) (rq : ReqFacts) (st 
 
 example : (writtenError false { name := [102] } 502 [109] [101]).body.length = 6 := rfl
 
+/-- The relayed rejection of a transport-level CONNECT (`GET https://…`, also inside an intercepted
+    session, through an upstream proxy that refuses the transport's own CONNECT) is a well-formed
+    answer to the CLIENT's request: the status line carries the client's protocol version
+    (`HTTP/1.<minor of the request>`, never the `HTTP/0.0` of the transport's synthetic CONNECT request)
+    and the upstream proxy's status; `Content-Length` is declared exactly once and is the length of the
+    relayed body, the bytes on the wire are the head followed by exactly that body; the connection is
+    kept unless the client's request (or a shutdown) said otherwise, and when it is not kept
+    `Connection: close` is on the wire.  For every upstream header map (canonical keys, as
+    `net/http` reads them) and every response-rule list without `%name`. -/
+theorem c12_relayed_rejection_wellformed (closing : Bool) (rq : ReqFacts) (st : Nat) (up : HMap) (body : Bytes)
+    (hr : NoRename rq.rules) (hv : ∀ r ∈ rq.rules, ValidRule r) (hc : CanonKeys up) (hn : NodupKeys up) :
+    (writtenRelay closing rq st up body).minor = rq.minor ∧
+      (writtenRelay closing rq st up body).status = st ∧
+      (writtenRelay closing rq st up body).values (bs "Content-Length") = [natToDec body.length] ∧
+      (writtenRelay closing rq st up body).body = body ∧
+      (writtenRelay closing rq st up body).wire = (writtenRelay closing rq st up body).head ++ body ∧
+      (writtenRelay closing rq st up body).keepAlive = !(closing || rq.close) ∧
+      ((closing || rq.close) = true → bs "close" ∈ (writtenRelay closing rq st up body).values connName) := by
+  refine ⟨rfl, rfl, ?_, rfl, rfl, rfl, ?_⟩
+  · unfold writtenRelay
+    rw [values_writeResponse_cl closing _ (modified_relay_canon rq st up body hr hv hc hn)]
+    rfl
+  · intro h
+    exact close_on_wire closing _ h
+
+-- an HTTP/1.0 client that asked `GET https://…`: `HTTP/1.0 403`, closed, `Connection: close` on the wire
+example : (writtenRelay false { name := [102], minor := 0, close := true } 403 [(bs "X-Up", [[49]])] [100, 101]).minor = 0 ∧
+    (writtenRelay false { name := [102], minor := 0, close := true } 403 [(bs "X-Up", [[49]])] [100, 101]).keepAlive = false ∧
+    (writtenRelay false { name := [102], minor := 0, close := true } 403 [(bs "X-Up", [[49]])] [100, 101]).values connName = [bs "close"] ∧
+    (writtenRelay false { name := [102], minor := 0, close := true } 403 [(bs "X-Up", [[49]])] [100, 101]).values (bs "Content-Length") = [[50]] := by
+  with_unfolding_all decide
+
+example : CanonKeys [(bs "X-Up", [[49]])] ∧ NodupKeys [(bs "X-Up", [[49]])] := by
+  constructor
+  · intro e he
+    simp only [List.mem_singleton] at he
+    subst he
+    with_unfolding_all rfl
+  · simp [NodupKeys]
+
+/-- The relay adds nothing of forwarder's own and takes nothing away: the `X-Forwarder-Error` values the
+    client reads are exactly those of the upstream proxy's reply (none when the upstream proxy sent
+    none — the response is the upstream proxy's, and says so only if the upstream proxy did), for
+    every rule list that leaves that field and `Connection` alone and every upstream reply without a
+    `Connection` field. -/
+theorem c12_relayed_rejection_passes_xfe (closing : Bool) (rq : ReqFacts) (st : Nat) (up : HMap) (body : Bytes)
+    (hr : NoRename rq.rules) (hv : ∀ r ∈ rq.rules, ValidRule r) (hc : CanonKeys up) (hn : NodupKeys up)
+    (hl : ∀ r ∈ rq.rules, leaves (lower xfeName) r = true ∧ leaves (lower connName) r = true)
+    (hconn : vals up (lower connName) = []) :
+    ((writtenRelay closing rq st up body).values xfeName).Perm (vals up (lower xfeName)) := by
+  have h1 : (bs "content-length" == lower xfeName) = false := by with_unfolding_all rfl
+  have h2 : (lower connName == lower xfeName) = false := by with_unfolding_all rfl
+  have h3 : ∀ k ∈ [bs "Content-Length", bs "Transfer-Encoding", bs "Trailer"], (lower k == lower xfeName) = false := by
+    with_unfolding_all decide
+  have hx : ∀ k ∈ hopByHopNames.map canonicalKey, (lower k == lower xfeName) = false := by
+    with_unfolding_all decide
+  unfold writtenRelay
+  rw [values_writeResponse closing _ xfeName h1 h2 h3]
+  exact modified_relay_vals rq st up body (lower xfeName) hr hv hc hn hl hconn hx
+
+-- an upstream forwarder's own `X-Forwarder-Error` reaches the client; a reply without one stays without
+example : (writtenRelay false { name := [102] } 403 [(xfeName, [[117, 112]])] []).values xfeName = [[117, 112]] ∧
+    (writtenRelay false { name := [102] } 403 [(bs "X-Up", [[49]])] []).values xfeName = [] := by
+  with_unfolding_all decide
+
 /-! ## C. one fault at any point of an exchange -/
 
 /-- a fault before the reply head is complete — dial, TLS handshake, CONNECT reply, `k` bytes of the
     head, an unparsable head — is answered with ONE complete response: the error response whose status
     and label the classification gives (kept alive unless the request said close), or the upstream
-    proxy's own rejection; a fault at a point the exchange does not pass changes nothing -/
+    proxy's own rejection, well-formed; a fault at a point the exchange does not pass changes nothing -/
 theorem c12_early_fault_yields_one_response (f : Fault) (ex : Exchange)
     (hf : ∀ k r l, f ≠ .bodyCut k r l) (hc2 : ∀ s n k, f ≠ .connectReply (.rejectedCut s n k)) :
     clientStream f ex = okObs ex ∨
       (∃ k, faultErr f ex = some k ∧
         clientStream f ex = .errorResponse ex.id (classify k).1 (classify k).2 (!ex.reqClose)) ∨
-      (∃ s wf ka, clientStream f ex = .relayedRejection ex.id s wf ka) := by
+      (∃ s ka, clientStream f ex = .relayedRejection ex.id s true ka) := by
   rcases clientStream_cases f ex with ⟨k, hk, h⟩ | ⟨s, fr, _, _, h⟩ | ⟨k, r, l, hb, _, _⟩ | ⟨s, n, k, hc, _, _⟩ | h
   · rcases faultErr_kind f ex k hk with ⟨_, hn⟩ | ⟨s, hs, _⟩
     · exact Or.inr (Or.inl ⟨k, hk, h.trans (errorObs_generated ex k hn)⟩)
-    · subst hs; exact Or.inr (Or.inr ⟨s, false, true, h⟩)
-  · exact Or.inr (Or.inr ⟨s, true, _, h⟩)
+    · subst hs; exact Or.inr (Or.inr ⟨s, _, h⟩)
+  · exact Or.inr (Or.inr ⟨s, _, h⟩)
   · exact absurd hb (hf k r l)
   · exact absurd hc (hc2 s n k)
   · exact Or.inl h
@@ -318,6 +385,53 @@ theorem c12_fault_status (f : Fault) (ex : Exchange) (k : ErrKind) (h : faultErr
 
 example : faultErr .dialTimeout { id := 1 } = some (.opError .dial true) ∧
     respStatus (.opError .dial true) = 504 := by decide
+
+/-- A transport-level CONNECT rejection — `GET https://…` or a request inside an intercepted session,
+    through an upstream proxy that answers the transport's own CONNECT with a non-2xx status, whether or
+    not the body of that answer arrives — reaches the client as ONE well-formed relayed response with
+    the upstream proxy's status, and the connection is kept exactly when the client did not ask for
+    `close` (the repaired F12: before, `HTTP/0.0 …` and kept whatever the client asked) -/
+theorem c12_transport_connect_rejection_relayed (f : Fault) (ex : Exchange)
+    (h : transportConnectRejection f ex = true) :
+    ∃ s, f.rejectionStatus = some s ∧
+      clientStream f ex = .relayedRejection ex.id s true (!ex.reqClose) ∧
+      (300 ≤ s ∧ s < 600 → cleanOutcome ex (clientStream f ex) = true) := by
+  have key : ∀ s, f.rejectionStatus = some s → faultErr f ex = some (.connectRejected s) →
+      ∃ s, f.rejectionStatus = some s ∧
+        clientStream f ex = .relayedRejection ex.id s true (!ex.reqClose) ∧
+        (300 ≤ s ∧ s < 600 → cleanOutcome ex (clientStream f ex) = true) := by
+    intro s hs hfe
+    have hcs : clientStream f ex = .relayedRejection ex.id s true (!ex.reqClose) := by
+      simp only [clientStream, hfe]
+      rfl
+    refine ⟨s, hs, hcs, ?_⟩
+    intro hr
+    rw [hcs]
+    simp only [cleanOutcome, ClientObs.id?, beq_self_eq_true, Bool.true_and, Bool.and_eq_true,
+      decide_eq_true_eq]
+    omega
+  cases f with
+  | connectReply r =>
+    cases r with
+    | rejected s fr =>
+      simp only [transportConnectRejection, Bool.and_eq_true, bne_iff_ne, ne_eq] at h
+      refine key s rfl ?_
+      have hk : (ex.kind == ReqKind.connect) = false := by simpa using h.2
+      simp [faultErr, h.1, hk]
+    | rejectedCut s n k =>
+      simp only [transportConnectRejection, Bool.and_eq_true, bne_iff_ne, ne_eq] at h
+      refine key s rfl ?_
+      have hk : (ex.kind == ReqKind.connect) = false := by simpa using h.2
+      simp [faultErr, h.1, hk]
+    | _ => simp [transportConnectRejection] at h
+  | _ => simp [transportConnectRejection] at h
+
+example : transportConnectRejection (.connectReply (.rejected 403 true))
+      { id := 3, kind := .httpsGet, viaUpstream := true, reqClose := true } = true ∧
+    clientStream (.connectReply (.rejected 403 true))
+      { id := 3, kind := .httpsGet, viaUpstream := true, reqClose := true } = .relayedRejection 3 403 true false ∧
+    clientStream (.connectReply (.rejectedCut 407 6 2))
+      { id := 4, kind := .mitm, viaUpstream := true } = .relayedRejection 4 407 true true := by decide
 
 /-- a reply whose head stops after `k` bytes, reset or FIN, surfacing or not: a 500 or a 502 -/
 theorem c12_head_cut_status (k : Nat) (r sf : Bool) :
@@ -417,17 +531,17 @@ theorem c12_truncation_detectable_full_false : ¬ c12_truncation_detectable_full
   have := h (.bodyCut 5 true 0) { id := 1, headLen := 27, framing := .eof, bodyLen := 10 } (by decide) (by decide)
   exact absurd this (by decide)
 
-/-- full clause — FALSE of the unchanged code (F12, F13, F37): for every fault point the client stream is
+/-- full clause — FALSE of the unchanged code (F13, F37): for every fault point the client stream is
     a clean outcome (`cleanOutcome`: complete well-formed error response / relayed rejection / the
     origin's complete message / a prefix no parser accepts / a close) -/
 def c12_clean_outcome_full : Prop := ∀ f ex, f.wf ex = true → cleanOutcome ex (clientStream f ex) = true
 
-/-- … holds for every fault point outside the recorded classes: the body is not relayed
-    close-delimited, and no transport-level CONNECT rejection (client CONNECTs are fine); a relayed
-    rejection carries a status in [300,600) (the upstream proxy's choice, not the proxy's) -/
+/-- … holds for every fault point outside the recorded classes, i.e. whenever the body is not relayed
+    close-delimited — CONNECT rejections included, the client's own and the transport's (F12 is
+    repaired); a relayed rejection carries a status in [300,600) (the upstream proxy's choice, not the
+    proxy's) -/
 theorem c12_clean_outcome_partial (f : Fault) (ex : Exchange) (hfr : relayFraming ex ≠ .eof)
-    (h12 : transportConnectRejection f ex = false)
-    (hst : ∀ s fr, f = .connectReply (.rejected s fr) → 300 ≤ s ∧ s < 600)
+    (hst : ∀ s, f.rejectionStatus = some s → 300 ≤ s ∧ s < 600)
     (hwf : f.wf ex = true) : cleanOutcome ex (clientStream f ex) = true := by
   obtain ⟨hne, hch⟩ := relayFraming_ne_eof hfr
   have hcl : ∀ n, ex.framing = .cl n → n = ex.bodyLen := by
@@ -435,18 +549,18 @@ theorem c12_clean_outcome_partial (f : Fault) (ex : Exchange) (hfr : relayFramin
     simp only [Fault.wf, hn, Bool.and_eq_true, beq_iff_eq] at hwf
     exact hwf.1
   rcases clientStream_cases f ex with ⟨k, hk, h⟩ | ⟨s, fr, hf, hkc, h⟩ | ⟨k, r, l, hb, hkc, h⟩ | ⟨s, n, k, hc, _, h⟩ | h
-  · rw [h]
-    rcases faultErr_kind f ex k hk with ⟨hu, hn⟩ | ⟨s, _, ht⟩
-    · rw [errorObs_generated ex k hn]
+  · rcases faultErr_kind f ex k hk with ⟨hu, hn⟩ | ⟨s, _, ht⟩
+    · rw [h, errorObs_generated ex k hn]
       have h5 := c12_upstream_faults_5xx k hu
       have hc : respStatus k = (classify k).1 := by
         cases k <;> first | rfl | exact absurd rfl (hn _)
       simp only [cleanOutcome, ClientObs.id?, beq_self_eq_true, Bool.true_and, Bool.and_eq_true,
         decide_eq_true_eq]
       omega
-    · rw [h12] at ht; exact absurd ht (by simp)
+    · obtain ⟨s', hs', _, hclean⟩ := c12_transport_connect_rejection_relayed f ex ht
+      exact hclean (hst s' hs')
   · rw [h]
-    have := hst s fr hf
+    have := hst s (by rw [hf]; rfl)
     simp only [cleanOutcome, ClientObs.id?, beq_self_eq_true, Bool.true_and, Bool.and_eq_true,
       decide_eq_true_eq]
     omega
@@ -470,22 +584,15 @@ theorem c12_clean_outcome_partial (f : Fault) (ex : Exchange) (hfr : relayFramin
     omega
   · rw [h]; exact okObs_clean ex hcl
 
-example : transportConnectRejection (.connectReply (.rejected 403 true)) { id := 2, kind := .connect, viaUpstream := true } = false ∧
-    cleanOutcome { id := 2, kind := .connect, viaUpstream := true }
-      (clientStream (.connectReply (.rejected 403 true)) { id := 2, kind := .connect, viaUpstream := true }) = true := by
+-- a rejected client CONNECT, and `GET https://…` whose transport-level CONNECT is rejected (asked with close)
+example : cleanOutcome { id := 2, kind := .connect, viaUpstream := true }
+      (clientStream (.connectReply (.rejected 403 true)) { id := 2, kind := .connect, viaUpstream := true }) = true ∧
+    relayFraming { id := 3, kind := .httpsGet, viaUpstream := true, reqClose := true } ≠ .eof ∧
+    (Fault.connectReply (.rejected 403 true)).wf { id := 3, kind := .httpsGet, viaUpstream := true, reqClose := true } = true ∧
+    cleanOutcome { id := 3, kind := .httpsGet, viaUpstream := true, reqClose := true }
+      (clientStream (.connectReply (.rejected 403 true))
+        { id := 3, kind := .httpsGet, viaUpstream := true, reqClose := true }) = true := by
   decide
-
-/-- F12: `GET https://…` through an upstream proxy that answers the transport's CONNECT with 403 —
-    the client reads the relayed reply with the status line of the transport's own CONNECT request
-    (`HTTP/0.0 403 Forbidden`), kept alive whatever the client asked -/
-theorem c12_clean_outcome_witness_connect :
-    (Fault.connectReply (.rejected 403 true)).wf
-        { id := 3, kind := .httpsGet, viaUpstream := true, reqClose := true } = true ∧
-      clientStream (.connectReply (.rejected 403 true))
-        { id := 3, kind := .httpsGet, viaUpstream := true, reqClose := true } = .relayedRejection 3 403 false true ∧
-      cleanOutcome { id := 3, kind := .httpsGet, viaUpstream := true, reqClose := true }
-        (clientStream (.connectReply (.rejected 403 true))
-          { id := 3, kind := .httpsGet, viaUpstream := true, reqClose := true }) = false := by decide
 
 /-- F13 again, as a failure of the clean-outcome clause -/
 theorem c12_clean_outcome_witness_eof :
